@@ -334,9 +334,36 @@ Definition plain_name_char (c : ascii) : bool :=
   || Nat.eqb n 95 || Nat.eqb n 45.
 Definition plain_name (s : string) : bool :=
   negb (String.eqb s "") && forallb plain_name_char (str_to_list s).
-Definition compile_ref (d : draft) (v : json) : res (list ckw) :=
+(* the last path segment of a URL: "https://h/a/person.json" -> "person.json" *)
+Fixpoint last_segment_aux (l : list ascii) (cur : list ascii) : list ascii :=
+  match l with
+  | [] => rev cur
+  | c :: t => if Ascii.eqb c "/"%char then last_segment_aux t [] else last_segment_aux t (c :: cur)
+  end.
+Definition last_segment (s : string) : string := str_of_list (last_segment_aux (str_to_list s) []).
+
+(* a reference to the document itself through its own "$id" (absolute, or relative to
+   the "$id": its last path segment) is a local reference: strip that prefix *)
+Definition localize_ref (rid : option string) (t : string) : string :=
+  match rid with
+  | None => t
+  | Some id =>
+      match str_prefix id t with
+      | Some r => if String.eqb r "" then "#" else r
+      | None =>
+          let seg := last_segment id in
+          if String.eqb seg "" then t
+          else match str_prefix seg t with
+               | Some r => if String.eqb r "" then "#" else r
+               | None => t
+               end
+      end
+  end.
+
+Definition compile_ref (d : draft) (rid : option string) (v : json) : res (list ckw) :=
   match v with
-  | JStr t =>
+  | JStr t0 =>
+      let t := localize_ref rid t0 in
       if String.eqb t "#" then Ok [CRef "#"]
       else match str_prefix ref_prefix_defs t with
            | Some name => if plain_name name then Ok [CRef t] else E_unsupported
@@ -467,7 +494,7 @@ Definition res_map {A B} (f : A -> B) (r : res A) : res B :=
   match r with Ok a => Ok (f a) | Err e => Err e | Panic w => Panic w | Diverge => Diverge end.
 
 (* one member (k, v) of a schema object; `rec` compiles a subschema *)
-Definition compile_member (rec : json -> res schema) (d : draft) (root : bool) (k : string) (v : json) : res (list ckw) :=
+Definition compile_member (rec : json -> res schema) (d : draft) (rid : option string) (root : bool) (k : string) (v : json) : res (list ckw) :=
   let sub := rec in
   let sub_list (v : json) (nonempty : bool) : res (list schema) :=
     match v with
@@ -479,7 +506,7 @@ Definition compile_member (rec : json -> res schema) (d : draft) (root : bool) (
     | JObj o => seq_res (map (fun kv => res_map (fun s => (fst kv, s)) (rec (snd kv))) o)
     | _ => E_schema
     end in
-          if String.eqb k "$ref" then compile_ref d v
+          if String.eqb k "$ref" then compile_ref d rid v
   else if String.eqb k "$schema" then (match v with JStr _ => Ok [] | _ => E_schema end)
   else if String.eqb k "$id" then
     (match v with
@@ -556,12 +583,12 @@ Definition compile_member (rec : json -> res schema) (d : draft) (root : bool) (
 
 (* compile one schema document node; returns the schema and the compiled members
    (the root needs them for its definitions) *)
-Fixpoint compile_node (d : draft) (root : bool) (j : json) {struct j} : res (schema * list ckw) :=
+Fixpoint compile_node (d : draft) (rid : option string) (root : bool) (j : json) {struct j} : res (schema * list ckw) :=
   match j with
   | JBool true => Ok (STrue, [])
   | JBool false => Ok (SFalse, [])
   | JObj o =>
-      match seq_res (map (fun kv => compile_member (fun x => res_map fst (compile_node d false x)) d root (fst kv) (snd kv)) o) with
+      match seq_res (map (fun kv => compile_member (fun x => res_map fst (compile_node d rid false x)) d rid root (fst kv) (snd kv)) o) with
       | Ok cks => let l := List.concat cks in Ok (assemble d l, l)
       | Err e => Err e
       | Panic w => Panic w
@@ -612,6 +639,16 @@ Definition detect_draft (root : json) : res draft :=
       | Some _ => Err "schema-draft"
       end
   | _ => Ok D2020
+  end.
+
+(* the document's own "$id", when it is in the plain absolute form *)
+Definition root_id (root : json) : option string :=
+  match root with
+  | JObj o => match jassoc "$id" o with
+              | Some (JStr u) => if plain_url u then Some u else None
+              | _ => None
+              end
+  | _ => None
   end.
 
 Record compiled := { c_draft : draft; c_root : schema; c_env : env }.
@@ -671,7 +708,7 @@ Definition refs_closed (E : env) (R : list string) (root : schema) : bool :=
 Definition compile_root (root : json) : res compiled :=
   match detect_draft root with
   | Ok d =>
-      match compile_node d true root with
+      match compile_node d (root_id root) true root with
       | Ok (sc, cks) =>
           let E := ("#", sc) :: defs_of cks in
           let R := reach E (List.length E) ["#"] in
